@@ -38,6 +38,7 @@ import (
 	"hash/fnv"
 	"math"
 	"math/rand"
+	"sort"
 	"testing"
 	"time"
 
@@ -644,9 +645,11 @@ func TestEnum_OracleModel(t *testing.T) {
 	}
 	jitters := []float64{0, 0.01, 1, 10, 50, 90, 99.9, maxJitter}
 	accepted := 0
-	for in, rates := range inputs {
+	for _, in := range sortedKeys(inputs) {
+		rates := inputs[in]
 		for _, jit := range jitters {
-			for sn, u := range streams {
+			for _, sn := range sortedKeys(streams) {
+				u := streams[sn]
 				v := judge(jit, rates, model(rates, jit, u, mNone))
 				if v.Msg != "" {
 					t.Fatalf("VERIF-INFRA: oracle rejects the reference model (input %s, jitter %v, stream %s): %s", in, jit, sn, v.Msg)
@@ -664,9 +667,11 @@ func TestEnum_OracleModel(t *testing.T) {
 		}
 	}
 	// every mutant must be rejected on this battery under the cos-of-uniform stream
-	for m, name := range mutantNames {
+	for m := mDropBalance; m <= mBalanceUnclamped; m++ {
+		name := mutantNames[m]
 		rejected, tried := 0, 0
-		for _, rates := range inputs {
+		for _, in := range sortedKeys(inputs) {
+			rates := inputs[in]
 			for _, jit := range []float64{1, 10, 50, 99.9} {
 				tried++
 				if judge(jit, rates, model(rates, jit, streams["random"], m)).Msg != "" {
@@ -680,6 +685,15 @@ func TestEnum_OracleModel(t *testing.T) {
 		stats.Note("oracle_model_mutant_rejections/"+name, int64(rejected))
 	}
 	stats.Note("oracle_model_accepted_runs", int64(accepted))
+}
+
+func sortedKeys[V any](m map[string]V) []string {
+	keys := make([]string, 0, len(m))
+	for k := range m {
+		keys = append(keys, k)
+	}
+	sort.Strings(keys)
+	return keys
 }
 
 // ---- regressions / hostile constants --------------------------------------------------
